@@ -80,6 +80,10 @@ type History struct {
 	SPE      uint64   `json:"spe"`
 	Runs     []Run    `json:"runs"`
 	TraceLog bool     `json:"trace_log,omitempty"` // run the service at zerolog.TraceLevel (output discarded)
+	// Conc is the process concurrency the service is configured with (0: 1, what every test of the
+	// repository uses; main.go passes util.ProcessConcurrency, the number of cores by default).  The
+	// unchanged attester does not use the value, so the model does not mention it.
+	Conc int64 `json:"conc,omitempty"`
 	Tags     []string `json:"tags,omitempty"`
 }
 
@@ -209,6 +213,14 @@ func (e *env) problem(s string) {
 		e.prob = s
 	}
 	e.mu.Unlock()
+}
+
+// Concurrency is the process concurrency the service of this history is built with.
+func (h History) Concurrency() int64 {
+	if h.Conc <= 0 {
+		return 1
+	}
+	return h.Conc
 }
 
 func sleepMs(ms uint64) { time.Sleep(time.Duration(ms) * time.Millisecond) }
@@ -416,7 +428,7 @@ func RunHistory(t *testing.T, h History) Observed {
 		svc, err := standardattester.New(ctx,
 			standardattester.WithLogLevel(level),
 			standardattester.WithMonitor(nullmetrics.New()),
-			standardattester.WithProcessConcurrency(1),
+			standardattester.WithProcessConcurrency(h.Concurrency()),
 			standardattester.WithChainTime(mocks.NewChainTime(h.SPE)),
 			standardattester.WithSpecProvider(specProvider{h.SPE}),
 			standardattester.WithAttestationDataProvider(e),
